@@ -84,9 +84,21 @@ def gen_lfi_case(rng):
             sub_unit = True
         heads = []
         fixed_one = rng.random() < 0.25
+        nfixed = 1 if fixed_one else 0
+        if not fixed_one and rng.random() < 0.2:
+            # two fixed heads with the same probability in front of the tunable ones (the fixed mass is their sum)
+            p0 = round(rng.uniform(0.08, 0.3), 2)
+            rest = 1.0 - 2 * p0
+            pt = [max(0.01, round(p * rest, 2)) for p in ps]
+            if exact_one:
+                pt[-1] = round(rest - sum(pt[:-1]), 2)
+            if pt[-1] >= 0.01 and 2 * p0 + sum(pt) <= 1.0 + 1e-9:
+                ps = [p0, p0] + pt
+                k += 2
+                nfixed = 2
         for h in range(k):
             atom = ["x%d_%d" % (j, h), []]
-            prob = ps[h] if (fixed_one and h == 0) else ["t", ps[h]]
+            prob = ps[h] if h < nfixed else ["t", ps[h]]
             heads.append([prob, atom])
             ad_heads.append(atom)
         body = []
@@ -218,6 +230,30 @@ def weights_of(lfi):
     return vals
 
 
+def fixed_mass_of(text):
+    """tunable head atom -> summed probability of the fixed heads of its annotated disjunction (from the program text)."""
+    out = {}
+    for line in text.splitlines():
+        head = line.split(":-")[0].strip().rstrip(".")
+        if "t(_)::" not in head or ";" not in head:
+            continue
+        fixed, tun = 0.0, []
+        for part in head.split(";"):
+            pr, _, atom = part.strip().partition("::")
+            if pr.strip().startswith("t("):
+                tun.append(atom.strip().replace(" ", ""))
+            else:
+                try:
+                    fixed += float(pr)
+                except ValueError:
+                    fixed = None
+                    break
+        if fixed:
+            for a in tun:
+                out[a] = fixed
+    return out
+
+
 def run_learner(text, data, cfg, seed, adversarial, nsteps, freq=None, stats=None):
     """Returns (lls, nweights). Raises Bad."""
     examples = [[(Term.from_string(a), v) for a, v in ex] for ex in data]
@@ -234,6 +270,7 @@ def run_learner(text, data, cfg, seed, adversarial, nsteps, freq=None, stats=Non
         stats["init_draws"] = stats.get("init_draws", 0) + seam.ndraws
         stats["adversarial_init"] = stats.get("adversarial_init", 0) + seam.nadv
     lls = []
+    fixed_mass = fixed_mass_of(text)
     where0 = "cfg=%s" % (",".join("%s=%s" % kv for kv in sorted(cfg.items())))
     for t in range(nsteps):
         ll, _conv = lfi.step()
@@ -248,6 +285,15 @@ def run_learner(text, data, cfg, seed, adversarial, nsteps, freq=None, stats=Non
             s = sum(v for i, v in weights_of(lfi) if i in idx)
             if s > 1.0 + 1e-9:
                 raise Bad("ad-sum", "%s: annotated disjunction %s sums to %r" % (where, [str(lfi.names[i]) for i in idx], s))
+            if cfg.get("normalize"):
+                # the fixed heads of the disjunction count too; their mass is read from the program text, not from the
+                # learner's own bookkeeping (judged for normalize=True only, the configuration that promises it)
+                fx = [fixed_mass.get(str(lfi.names[i].with_probability(None)).replace(" ", "")) for i in idx
+                      if hasattr(lfi.names[i], "with_probability")]
+                fx = [f for f in fx if f is not None]
+                if fx and s + fx[0] > 1.0 + 1e-6:
+                    raise Bad("ad-sum", "%s: annotated disjunction %s sums to %r with its fixed heads (%r)" % (
+                        where, [str(lfi.names[i]) for i in idx], s + fx[0], fx[0]))
         if t >= 1 and lls[t] < lls[t - 1] - 1e-9 * max(1.0, abs(lls[t - 1])):
             raise Bad("ll-decrease", "%s: log-likelihood %r after %r" % (where, lls[t], lls[t - 1]))
         if t == 0 and freq is not None:
